@@ -5,7 +5,7 @@
 # the patch still pass with it (demo not present); 3. with the patch the demo fails.
 WT=$1; PATCH=$2; DEMO=$3; PKG=${4:-deadpool}; TDIR=${5:-tests}; FEAT=${6:-}
 [ "$PKG" = deadpool ] && [ -z "$FEAT" ] && FEAT="--features rt_tokio_1,serde"
-export CARGO_TARGET_DIR=/tmp/seed/target CARGO_NET_OFFLINE=true
+export CARGO_TARGET_DIR=${CTD:-/tmp/seed/target} CARGO_NET_OFFLINE=true
 cd "$WT" || exit 2
 git checkout -q -- . ; rm -f $TDIR/seeded_demo*.rs; mkdir -p $TDIR
 name=seeded_demo_$(basename "$PATCH" .diff | sed 's/patch_//')
